@@ -461,6 +461,7 @@ func (env *simEnv) snap(label string) {
 
 //go:norace
 func (env *simEnv) runClient(client int, ops []Op) {
+	env.rd.ClientTask[client+1] = simrt.CurID()
 	for idx, op := range ops {
 		rec := env.exec(client, idx, op)
 		if rec.Panic != "" || !rec.Exit {
@@ -474,7 +475,7 @@ func (env *simEnv) runClient(client int, ops []Op) {
 
 // runScenario executes sc under the kernel and returns everything observed.
 func runScenario(sc *Scenario, setup func(env *simEnv)) *RunData {
-	rd := &RunData{Sc: sc, Snaps: map[string]*Snap{}, SnapAt: map[string]uint64{}, InFlight: make([]*Rec, len(sc.Clients)+1)}
+	rd := &RunData{Sc: sc, Snaps: map[string]*Snap{}, SnapAt: map[string]uint64{}, InFlight: make([]*Rec, len(sc.Clients)+1), ClientTask: make([]int, len(sc.Clients)+1)}
 	af := map[string]bool{}
 	for _, f := range sc.Sim.AtomicFiles {
 		af[f] = true
